@@ -287,6 +287,18 @@ class Engine:
         self.lastmodel = None
 
     # ---- solver
+    def check(self, assumptions):
+        """solver.check(*assumptions) through the C API: z3py's wrapper re-casts every assumption on every call, which
+        dominated the run time with path conditions of ~150 conjuncts"""
+        n = len(assumptions)
+        arr = (z3.Ast * n)()
+        for i, a in enumerate(assumptions):
+            if isinstance(a, bool): a = z3.BoolVal(a)
+            arr[i] = a.as_ast()
+        sv = self.solver
+        r = z3.Z3_solver_check_assumptions(sv.ctx.ref(), sv.solver, n, arr)
+        return z3.CheckSatResult(r)
+
     def feasible(self, st, cond):
         if isinstance(cond, bool): return cond
         c = z3.simplify(cond)
@@ -300,7 +312,7 @@ class Engine:
             except Exception:
                 pass
         t = time.time()
-        r = self.solver.check(*(st.pc + [c]))
+        r = self.check(st.pc + [c])
         self.nq += 1; self.tq += time.time() - t
         if r == z3.unknown: raise Unsupported('solver unknown')
         if r == z3.sat and st.model is None:
@@ -436,6 +448,8 @@ class Engine:
             else: v = 0 if m.group(3) == 'MIN' else (1 << b) - 1
             return S(v, ty)
             return S(v, ty)
+        if t.endswith('SizedTypeProperties>::ALIGN'): return S(8, 'usize')     # only compared against the 4096-aligned model addresses
+        if t.endswith('SizedTypeProperties>::SIZE'): return S(16, 'usize')     # only tested for being non-zero
         if t.startswith('"') or t.startswith('b"'): return StrV(t)
         if t.startswith("'"):
             import ast
@@ -560,6 +574,14 @@ class Engine:
             if isinstance(v, Agg) and v.ty.startswith('{closure@'):
                 return FnV('closure', v.ty, v)
             return v
+        if kind.startswith('Transmute'):
+            w = v
+            while isinstance(w, Agg) and len(w.f) == 1 and w.ty in ('NonNull', 'Unique', 'Box'): w = w.f[0]
+            if isinstance(w, Ref):
+                if ty.startswith('*') or ty.startswith('&'): return w
+                if ty == 'usize': return S(self.addr_of(self.cur_state, w), 'usize')
+            if isinstance(w, S) and ty in BITS and BITS.get(w.ty) == BITS[ty]: return S(w.v, ty)
+            raise Unsupported('transmute %r as %s' % (v, ty))
         if kind.startswith('PointerExposeProvenance') or (kind.startswith('PtrToPtr') and isinstance(v, Ref)):
             if kind.startswith('PtrToPtr'): return v
             if isinstance(v, Ref): return S(self.addr_of(self.cur_state, v), 'usize')
@@ -576,7 +598,11 @@ class Engine:
 
     # ---- rvalues
     def addr_of(self, st, ref):
-        raise Unsupported('address of a reference (no address model installed)')
+        # default address model: every cell is its own allocation at a distinct, non-null, 4096-aligned address;
+        # only the address of the cell itself (no projection) is meaningful. Harnesses that reason about element
+        # addresses (lookups.py) install their own model.
+        if ref.path: raise Unsupported('address of a projected reference (no address model installed)')
+        return 0x100000 + 0x1000 * ref.cell
 
     def rvalue(self, st, fr, rv, dest_ty=None):
         self.cur_state = st
@@ -649,6 +675,7 @@ class Engine:
         if isinstance(v, VecV): return 'Vec'
         if isinstance(v, FnV): return 'fn'
         if isinstance(v, Opq): return 'Opq'
+        if isinstance(v, StrV): return 'str'
         return None
 
     def lookup_method(self, head, trait, meth, args, st, callee):
@@ -990,6 +1017,48 @@ def bi_opq_eq(eng, st, args, dest, ret_bb, callee=''):
     while isinstance(b, Ref): b = eng.deref(st, b)
     return ('value', S(a.e == b.e, 'bool'))
 
+def opt_some(v): return En('Option', S(1, 'isize'), {1: (v,)})
+def opt_none(): return En('Option', S(0, 'isize'), {0: ()})
+
+def bi_vec_pop(eng, st, args, dest, ret_bb, callee=''):
+    rf = args[0]; v = vec_of(eng, st, rf)
+    if not v.len.conc(): raise Unsupported('pop on symbolic len')
+    n = v.len.v
+    if n == 0: return ('value', opt_none())
+    x = v.el[n - 1]
+    eng.store_ref(st, rf, VecV(S(n - 1, 'usize'), v.cap, v.el))
+    return ('value', opt_some(x))
+
+def bi_sliceiter_next(eng, st, args, dest, ret_bb, callee=''):
+    itref = args[0]; it = eng.deref(st, itref)
+    rf, lo, hi = it.f
+    if not (lo.conc() and hi.conc()): raise Unsupported('slice iterator with symbolic bounds')
+    if lo.v >= hi.v: return ('value', opt_none())
+    eng.store_ref(st, itref, Agg('SliceIter', (rf, S(lo.v + 1, 'usize'), hi)))
+    return ('value', opt_some(Ref(rf.cell, rf.path + (('i', lo),))))
+
+def bi_sliceiter_next_back(eng, st, args, dest, ret_bb, callee=''):
+    itref = args[0]; it = eng.deref(st, itref)
+    rf, lo, hi = it.f
+    if not (lo.conc() and hi.conc()): raise Unsupported('slice iterator with symbolic bounds')
+    if lo.v >= hi.v: return ('value', opt_none())
+    eng.store_ref(st, itref, Agg('SliceIter', (rf, lo, S(hi.v - 1, 'usize'))))
+    return ('value', opt_some(Ref(rf.cell, rf.path + (('i', S(hi.v - 1, 'usize')),))))
+
+def bi_box_new_uninit(eng, st, args, dest, ret_bb, callee=''):
+    """Box::<[T; N]>::new_uninit() as emitted for `vec![a, b, ..]`: a fresh cell holding MaybeUninit { uninit, value: ManuallyDrop(MaybeDangling(_)) }"""
+    c = st.new_cell(Agg('MaybeUninit', (UNIT, Agg('ManuallyDrop', (Agg('MaybeDangling', (UNINIT,)),)))))
+    return ('value', Agg('Box', (Agg('Unique', (Agg('NonNull', (Ref(c, ()),)),)),)))
+
+def bi_box_into_vec(eng, st, args, dest, ret_bb, callee=''):
+    b = args[0]
+    r = b
+    while isinstance(r, Agg): r = r.f[0]
+    v = eng.deref(st, r)
+    arr = v.f[1].f[0].f[0]
+    if not isinstance(arr, VecV): raise Unsupported('box_assume_init_into_vec on %r' % (arr,))
+    return ('value', VecV(arr.len, arr.len, list(arr.el)))
+
 def bi_vec_new(eng, st, args, dest, ret_bb, callee=''):
     return ('value', VecV(S(0, 'usize'), 0, []))
 
@@ -1023,6 +1092,11 @@ def bi_ref_eq(eng, st, args, dest, ret_bb, callee=''):
     a = eng.deref(st, a); b = eng.deref(st, b)
     va = a
     while isinstance(va, Ref): va = eng.deref(st, va)
+    vb = b
+    while isinstance(vb, Ref): vb = eng.deref(st, vb)
+    if isinstance(va, StrV) and isinstance(vb, StrV):
+        import fmtmodel
+        return ('value', S(fmtmodel.sval(va) == fmtmodel.sval(vb), 'bool'))
     if isinstance(va, S) or (isinstance(va, Agg) and va.ty == 'NonZero'):
         return bi_prim_eq(eng, st, [a, b], dest, ret_bb)
     head = eng.runtime_head(va, st)
@@ -1105,7 +1179,7 @@ def bi_vec_capacity(eng, st, args, dest, ret_bb, callee=''):
     return ('value', v.cap if isinstance(v.cap, S) else S(v.cap, 'usize'))
 
 BUILTINS = {
-    'size_of': bi_size_of,
+    'size_of': bi_size_of, 'box_assume_init_into_vec_unsafe': bi_box_into_vec,
     'panic': bi_panic, 'panic_fmt': bi_panic, 'assert_failed': bi_panic, 'unwrap_failed': bi_panic,
     'replace': bi_mem_replace,
 }
@@ -1115,7 +1189,8 @@ BUILTIN_METHODS = {
     ('Vec', 'index'): bi_vec_index, ('Vec', 'index_mut'): bi_vec_index, ('Vec', 'len'): bi_vec_len, ('Vec', 'push'): bi_vec_push,
     ('Vec', 'new'): bi_vec_new, ('Vec', 'clear'): bi_vec_clear, ('Vec', 'deref'): bi_identity, ('Vec', 'deref_mut'): bi_identity,
     ('Vec', 'as_slice'): bi_identity, ('Vec', 'with_capacity'): bi_vec_with_capacity, ('Vec', 'capacity'): bi_vec_capacity,
-    ('Vec', 'reserve'): bi_vec_reserve, ('Opq', 'clone'): bi_opq_clone, ('Opq', 'eq'): bi_opq_eq,
+    ('Vec', 'reserve'): bi_vec_reserve, ('Vec', 'pop'): bi_vec_pop, ('SliceIter', 'next'): bi_sliceiter_next, ('SliceIter', 'next_back'): bi_sliceiter_next_back,
+    ('Box', 'new_uninit'): bi_box_new_uninit, ('boxed', 'box_assume_init_into_vec_unsafe'): bi_box_into_vec, ('Opq', 'clone'): bi_opq_clone, ('Opq', 'eq'): bi_opq_eq,
     ('[Node<T>]', 'get'): bi_slice_get, ('[Node<T>]', 'get_mut'): bi_slice_get,
     ('[Node<T>]', 'as_ptr_range'): bi_as_ptr_range, ('Range', 'contains'): bi_range_contains, ('mem', 'size_of'): bi_size_of,
     ('[Node<T>]', 'iter'): bi_slice_iter_any, ('[Node<T>]', 'iter_mut'): bi_slice_iter_any, ('[Node<T>]', 'len'): bi_vec_len,
@@ -1159,6 +1234,10 @@ SHIMS3 = {
     ('Result', 'Try', 'from_output'): 'result_from_output',
     ('Option', 'IntoIterator', 'into_iter'): 'option_into_iter',
     ('Vec', 'Clone', 'clone'): 'vec_clone', ('Vec', 'PartialEq', 'eq'): 'vec_eq',
+    ('Vec', 'Extend', 'extend'): 'vec_extend', ('Vec', 'IntoIterator', 'into_iter'): 'vec_into_iter',
 }
+for _m in ('is_empty', 'contains', 'first', 'last', 'truncate', 'reverse'):
+    SHIMS[('Vec', _m)] = 'vec_' + _m
+SHIMS[('Iterator', 'collect')] = 'iter_collect_vec'
 # <&T as PartialEq>::eq
 BUILTIN_METHODS[('&T', 'eq')] = bi_ref_eq
